@@ -374,6 +374,12 @@ func emitH264Extremes(c *RNG, emit func(op int, toks ...Tok)) {
 	run(false, 1200, [][]byte{genH264Nal(c, 7, 40000), genH264Nal(c, 8, 25631), genH264Nal(c, 5, 30)})
 	run(false, 65535, [][]byte{genH264Nal(c, 7, 32768), genH264Nal(c, 8, 32763), genH264Nal(c, 1, 10)})
 	run(false, 200, [][]byte{genH264Nal(c, 7, 65530), genH264Nal(c, 8, 2), genH264Nal(c, 5, 9)})
+	// a reassembled unit is not bounded by the RTP payload size: 2^16 bytes and more, in both framings
+	// (the AVC length prefix has four bytes)
+	for _, avc := range []bool{false, true} {
+		emit(1006, TI(0), TI(b2i(avc)), unitCallsTokMTU(c, 1200, [][][]byte{{genH264Nal(c, 5, 65536), genH264Nal(c, 1, 70001)}}, false))
+		emit(1006, TI(0), TI(b2i(avc)), unitCallsTokMTU(c, 65535, [][][]byte{{genH264Nal(c, 1, 65535), genH264Nal(c, 5, 65537)}}, false))
+	}
 }
 
 // ---- independent RFC 6184 encoder (decoder clause of C10) ---------------------------------
